@@ -518,7 +518,9 @@ class IntermediateStates:
             return [(1, [(order,)])]
 
         x = symbols('x')
-        f = (1 + x) ** -0.5
+        # exact exponent: the float -0.5 limits the Taylor coefficients to
+        # 15 digits, which nsimplify can not convert back beyond 8th order
+        f = (1 + x) ** Rational(-1, 2)
         ret = []
         for exp in range(1, order//min_order + 1):
             f = diff(f, x)
